@@ -244,6 +244,7 @@ func registry() []*propertySpec {
 	ps = append(ps, envProperties()...)
 	ps = append(ps, graphProperties()...)
 	ps = append(ps, appProperties()...)
+	ps = append(ps, parseProperties()...)
 	sort.Slice(ps, func(i, j int) bool { return ps[i].ID < ps[j].ID })
 	return ps
 }
